@@ -48,6 +48,12 @@ def gen_case(seed, profile=None):
     steps = [s for s in steps if s["op"] in ops.ALL_OPS]
     for i, s in enumerate(steps):
         s["sid"] = i
+        # DottedCircleFilter writes to the source font (open finding
+        # KF-C07-dottedcircle-ensure_base), which makes later output depend on
+        # history by that listed defect: keep it out of the sampled C08 steps
+        fl = s.get("opts", {}).get("filters")
+        if fl:
+            s["opts"]["filters"] = [d for d in fl if not (isinstance(d, dict) and d.get("cls") == "DottedCircleFilter")]
         # shared long-lived option objects are part of the history dimension only:
         # keep refs (the same object may serve several steps of one variant)
     case = {"id": cid, "seed": seed, "world": {"spec": spec}, "sde": rng.choice(SDES), "steps": steps,
